@@ -10,7 +10,11 @@ Oracle layers
       (e) cursor node removed or moved (really moved), follower untouched until the next step: follower is next
   L2  the reference model of c11_model.py: exact yield sequence
   F   len / list / reversed / index / negative index / out-of-range / membership / slices against
-      the reference sequence after every step
+      the reference sequence after every step.  Membership is probed with every member node, with
+      non-member nodes, and with operands that are no node of the sequence at all but are related
+      to it (values attached to the graph or produced by its nodes, nodes of nested subgraphs, the
+      owner node, the graph / function object itself, look-alikes by name, None / int / str / tuple):
+      `x in container` is True exactly for the node objects of the reference sequence.
 
 Same-position ("degenerate") moves and sort() are ambiguous in the statement for iterators that
 are parked on the node concerned: those iterators are *tainted* - their L2 comparison is counted
@@ -90,6 +94,12 @@ class Watchdog:
 WD = Watchdog()
 
 KINDS = ("fwd", "rev", "rec_fwd", "rec_rev")
+
+
+def _short(obj) -> str:
+    if isinstance(obj, (ir.Value, ir.Node, ir.Graph, ir.Function)):
+        return f"<{type(obj).__name__} {getattr(obj, 'name', None)!r}>"
+    return repr(obj)[:60]
 _STOP = object()
 
 
@@ -137,7 +147,21 @@ class Run:
     def _build_real(self) -> None:
         s = self.setup
         ng = len(s["init"])
-        graphs = [None] + [ir.Graph([], [], nodes=[], name=f"g{gid}") for gid in range(1, ng)]
+        # optional graph inputs / initializers / outputs and per-node output counts (setup keys "io", "nout")
+        io = {int(k) % ng: v for k, v in (s.get("io") or {}).items()}
+        nout = list(s.get("nout") or ())
+        self.io_values: dict[int, dict[str, list]] = {}
+        for gid in range(ng):
+            spec = io.get(gid) or {}
+            self.io_values[gid] = {
+                "in": [ir.Value(name=f"g{gid}_in{k}") for k in range(int(spec.get("in", 0)))],
+                "init": [ir.Value(name=f"g{gid}_w{k}") for k in range(int(spec.get("init", 0)))],
+                "out": [],
+            }
+        graphs = [None] + [
+            ir.Graph(self.io_values[gid]["in"], [], nodes=[], initializers=self.io_values[gid]["init"], name=f"g{gid}")
+            for gid in range(1, ng)
+        ]
         nodes: list[ir.Node] = []
         for n in range(self.N):
             attrs = []
@@ -147,17 +171,41 @@ class Run:
                 else:
                     attrs.append(ir.AttrGraphs(f"a{j}", [graphs[v] for v in val]))
             inputs = [nodes[p].outputs[0] for p in s["inputs"][n]]
-            nodes.append(ir.Node("", f"Op{n % 3}", inputs, attrs, num_outputs=1, name=f"n{n}"))
+            k_out = 1 + (int(nout[n]) - 1) % 3 if n < len(nout) else 1
+            nodes.append(ir.Node("", f"Op{n % 3}", inputs, attrs, num_outputs=k_out, name=f"n{n}"))
         self.nodes = nodes
         self.idx = {id(node): n for n, node in enumerate(nodes)}
+        taken: set[int] = set()
+        for gid in range(ng):
+            spec = io.get(gid) or {}
+            outs = []
+            for n in spec.get("out", ()):
+                n %= self.N
+                if n not in taken:  # a value can be the output of one graph only
+                    taken.add(n)
+                    outs.append(nodes[n].outputs[-1])
+            if spec.get("thru") and self.io_values[gid]["in"]:
+                outs.append(self.io_values[gid]["in"][0])
+            self.io_values[gid]["out"] = outs
+        self.graph_out_ids = {id(v) for gid in range(ng) for v in self.io_values[gid]["out"]}
         for gid in range(1, ng):
+            graphs[gid].outputs.extend(self.io_values[gid]["out"])
             graphs[gid].extend([nodes[n] for n in s["init"][gid]])
         # the top-level graph receives its nodes through the constructor (it is nobody's subgraph)
-        graphs[0] = ir.Graph([], [], nodes=[nodes[n] for n in s["init"][0]], name="g0")
+        graphs[0] = ir.Graph(self.io_values[0]["in"], self.io_values[0]["out"], nodes=[nodes[n] for n in s["init"][0]],
+                             initializers=self.io_values[0]["init"], name="g0")
         self.graphs_real = graphs
         self.cont: list = list(graphs)
         if s.get("main") == "function":
             self.cont[0] = ir.Function("c11", "f", graph=graphs[0], attributes=[])
+        # operands for membership probes that are never part of any node sequence
+        self.free_value = ir.Value(name="vf_free")
+        self.twins: dict[int, ir.Node] = {}
+        self.owner_of: dict[int, int] = {}
+        for n, alist in self.attrs.items():
+            for kind, val in alist:
+                for sub in ([val] if kind == "G" else val):
+                    self.owner_of.setdefault(sub, n)
 
     def _build_model(self) -> None:
         s = self.setup
@@ -398,6 +446,15 @@ class Run:
             if got_in != (n in members):
                 raise Violation("F:membership", "-", f"(n{n} in g{gid}) is {got_in} but reference sequence is {order}")
         self.bump("f_membership_reads", len(probe))
+        # every second step (and always in the initial and the final state)
+        for label, obj in (self._foreign_probes(gid, order) if force or self.t % 2 == 0 else ()):
+            got_in = guarded(f"membership({label})", lambda obj=obj: obj in c)
+            self.bump("f_foreign_membership_reads")
+            self.bump("f_foreign:" + label)
+            if got_in is not False:
+                raise Violation(f"F:membership-of-non-node|{label}", "-",
+                                f"({label} in g{gid}) is {got_in!r}; the operand {_short(obj)} is no node of the "
+                                f"{type(c).__name__}'s sequence, reference sequence is {order}")
         if L and self.t % 3 == 0:
             lo, hi = self.t % (L + 1), (self.t * 7) % (L + 2)
             for sl in (slice(lo, hi), slice(None, None, -1), slice(-2, None)):
@@ -406,6 +463,77 @@ class Run:
                 if len(got_sl) != len(exp) or any(a is not b for a, b in zip(got_sl, exp)):
                     raise Violation("F:slice", "-", f"g{gid}[{sl}] = {names(got_sl)} but reference {order}")
             self.bump("f_slice_reads", 3)
+
+    def _foreign_probes(self, gid: int, order: list[int]) -> list[tuple[str, object]]:
+        """Operands that are no node of g<gid>'s sequence although they are related to it; one
+        representative per class, rotating with the step counter.  Expected membership: False."""
+        t = self.t
+        L = len(order)
+        members = set(order)
+        c = self.cont[gid]
+        g_real = self.graphs_real[gid]
+        out: list[tuple[str, object]] = []
+
+        def rot(seq, k=0):
+            return seq[(t + k) % len(seq)]
+
+        # values
+        if L:
+            m = rot(order)
+            for k, v in enumerate(self.nodes[m].outputs):
+                out.append(("value:output-of-member-node" if k == 0 else "value:later-output-of-member-node", v))
+        nested_graphs = self._closure(gid)[1:]
+        nested_nodes = [n for h in nested_graphs for n in self.mg[h].order()]
+        detached = [n for n in range(self.N) if self.where[n] is None]
+        inside = members.union(nested_nodes)
+        elsewhere = [n for n in range(self.N) if self.where[n] is not None and n not in inside]
+        if nested_nodes:
+            n = rot(nested_nodes)
+            out.append(("node:of-nested-subgraph", self.nodes[n]))
+            out.append(("value:output-of-nested-subgraph-node", self.nodes[n].outputs[0]))
+        if detached:
+            out.append(("value:output-of-detached-node", self.nodes[rot(detached)].outputs[0]))
+        if elsewhere:
+            out.append(("value:output-of-node-in-another-graph", self.nodes[rot(elsewhere)].outputs[0]))
+        own = self.io_values[gid]
+        for key, label in (("in", "value:graph-input"), ("init", "value:graph-initializer"), ("out", "value:graph-output")):
+            if own[key]:
+                out.append((label, rot(own[key])))
+        other_gids = [h for h in self.io_values if h != gid and (self.io_values[h]["in"] or self.io_values[h]["init"])]
+        if other_gids:
+            h = rot(other_gids)
+            out.append(("value:owned-by-another-graph", rot(self.io_values[h]["in"] + self.io_values[h]["init"])))
+        out.append(("value:detached", self.free_value))
+        # look-alikes
+        if L:
+            m = rot(order, 1)
+            twin = self.twins.get(m)
+            if twin is None:
+                src = self.nodes[m]
+                twin = self.twins[m] = ir.Node(src.domain, src.op_type, [], num_outputs=1, name=src.name)
+            out.append(("node:detached-namesake-of-member", twin))
+            out.append(("str:name-of-member-node", self.nodes[m].name))
+            out.append(("tuple:of-member-node", (self.nodes[m],)))
+            out.append(("int:valid-index", rot([0, L - 1, -1])))
+        else:
+            out.append(("str:other", rot(["", "n0"])))
+        out.append(("int:no-index", rot([L, -L - 1, 1 << 70])))
+        out.append(("None", None))
+        # owners and containers
+        owner = self.owner_of.get(gid)
+        if owner is not None and owner not in members:
+            out.append(("node:owner-of-this-graph", self.nodes[owner]))
+        out.append(("graph:itself", g_real))
+        if c is not g_real:
+            out.append(("function:itself", c))
+        elif self.cont[0] is not self.graphs_real[0]:
+            out.append(("function:another", self.cont[0]))
+        if nested_graphs:
+            out.append(("graph:nested-subgraph", self.graphs_real[rot(nested_graphs)]))
+        others = [h for h in range(len(self.graphs_real)) if h != gid and h not in nested_graphs]
+        if others:
+            out.append(("graph:another", self.graphs_real[rot(others)]))
+        return out
 
     # ---------------------------------------------------------------- real edit calls
     def _real(self, label: str, fn) -> None:
@@ -549,7 +677,7 @@ class Run:
                 outs = {id(self.nodes[n]) for n in nodes}
                 for o in objs:
                     for v in o.outputs:
-                        if any(id(u.node) not in outs for u in v.uses()):
+                        if id(v) in self.graph_out_ids or any(id(u.node) not in outs for u in v.uses()):
                             safe = False
             if form % 3 == 0 and len(objs) == 1:
                 self._real(f"remove(g{gid})", lambda: c.remove(objs[0], safe=bool(safe)))
